@@ -8,3 +8,9 @@ import LyModel.Props.C12
 #print axioms LyModel.Props.C12.json_tree_refines_spec
 #print axioms LyModel.Props.C12.json_document_faithful
 #print axioms LyModel.Props.C12.json_typing_covers_rfc7951
+#print axioms LyModel.Props.C12.start_tag_binds_each_prefix_once
+#print axioms LyModel.Props.C12.start_tag_binds_each_prefix_once_fails_without_consistency
+#print axioms LyModel.Props.C12.start_tag_binds_each_prefix_once_fails_without_numbered_prefixes
+#print axioms LyModel.Props.C12.attr_prefix_resolves
+#print axioms LyModel.Props.C12.attr_prefix_resolves_fails_without_reserved_check
+#print axioms LyModel.Props.C12.attr_prefix_resolves_fails_without_numbered_prefixes
